@@ -46,6 +46,8 @@ class PcWorld:
                 "parts": self.draw_parts(ch),
                 "reload": ch.pick([None, "", "systemctl reload frr", "ifreload -a", "service x restart"], "reload"),
                 "is_safe": ch.draw(2, "safe") == 1,
+                # declines this device only when asked to render (NotSupportedDevice from run()): it then does not compete
+                "declines": ch.draw(7, "declines") == 0,
             })
         # at most one generator may rely on the default priority, priorities stay pairwise distinct
         seen_default = False
@@ -114,6 +116,9 @@ def make_entire(spec, world):
         return spec["path"]
 
     def run(self, device):
+        if spec.get("declines"):
+            from annet.generators import NotSupportedDevice
+            raise NotSupportedDevice("simulated: generator %s does not support %s" % (spec["name"], device.hostname))
         for p in spec["parts"]:
             yield p
 
@@ -223,6 +228,8 @@ class Engine:
         when that winner declares itself safe (the safe filter never promotes a losing generator)"""
         winners = {}
         for s in world.specs:
+            if s.get("declines"):
+                continue
             prio = 100 if s["prio"] is None else s["prio"]
             if s["path"] not in winners or prio > winners[s["path"]][0]:
                 winners[s["path"]] = (prio, s)
